@@ -105,6 +105,18 @@ func (g *g3) element(depth, loops int) []ref.Tok {
 		case 3:
 			coll = []ref.Tok{xn("["), g.proc(depth, 0), g.lit(), xn("]")}
 		}
+		if g.rng.IntN(5) == 0 {
+			// several entries: the body discards the pair first, so the
+			// enumeration order cannot show
+			g.feat["forall over a multi-entry dictionary"] = true
+			coll = []ref.Tok{xn("<<")}
+			for j := 2 + g.rng.IntN(3); j > 0; j-- {
+				coll = append(coll, ln(g.newName("k")), g.lit())
+			}
+			coll = append(coll, xn(">>"))
+			body := append([]ref.Tok{xn("pop"), xn("pop")}, g.body(depth+1, loops+1)...)
+			return append(coll, ref.TProc(body), xn("forall"))
+		}
 		return append(coll, g.proc(depth, loops+1), xn("forall"))
 	case k < 27:
 		g.feat["loop"] = true
@@ -246,6 +258,10 @@ var c03Pinned = []string{
 	"{ { } } exec",
 	"/p { } def p 1",
 	"/a { b 1 } def /b { 2 } def a",
+	"0 << /a 1 /b 2 /c 3 >> { pop pop 1 add } forall",
+	"0 << /a 1 /b 2 /c 3 >> { pop pop 1 add exit 100 add } forall",
+	"0 3 { << /a 1 /b 2 /c 3 /d 4 >> { pop pop 1 add dup 2 eq { exit } if } forall 10 add } repeat",
+	"<< /a 1 /b 2 >> { pop pop 7 } forall",
 	"/add { sub } def /f { 5 3 add } bind def f",
 	"<< /add { sub } >> begin /f { 5 3 add } bind def end f",
 	"/add 7 def /f { add } bind def f",
